@@ -98,6 +98,9 @@ func mergeLiteralRule(e *Env, fname, tname string) {
 		r.Undecide("R09.1", key, "not a struct")
 		return
 	}
+	if mergeStructSSA(e, fname, tname, st, pk.PkgPath) {
+		return
+	}
 	var lit *ast.CompositeLit
 	nret := 0
 	ast.Inspect(fd.Body, func(n ast.Node) bool {
@@ -428,7 +431,11 @@ func selectorMatches(e *Env, pk *packages.Package, fd *ast.FuncDecl, ps []types.
 	r := e.R
 	all := true
 	for _, c := range cases {
-		got := evalSelect(pk.TypesInfo, fd, ps[0], ps[1], c.sa, c.sb)
+		// decided on the SSA form (independent of how the selector is written); the AST evaluator is the fallback
+		got := ssaSelect(e.P.Func(inputRel, fd.Name.Name), c.sa, c.sb)
+		if got == "?" {
+			got = evalSelect(pk.TypesInfo, fd, ps[0], ps[1], c.sa, c.sb)
+		}
 		okk := false
 		for _, w := range c.want {
 			if got == w {
@@ -452,6 +459,9 @@ func stName(s absState) string { return [...]string{"nil", "empty", "non-empty"}
 
 // mergeMapRule: stores into the result happen for the first operand's entries before the second's.
 func mergeMapRule(e *Env, name string) bool {
+	if decided, ok := mergeMapSSA(e, name); decided {
+		return ok
+	}
 	r := e.R
 	fd, pk := e.P.Decl(inputRel, name)
 	key := inputRel + "." + name
